@@ -1,3 +1,5 @@
+import FlatModel.Props.C06
+import FlatModel.Props.C06Bits
 import FlatModel.Props.C06Opt
 #print axioms FC.C06.optimal
 #print axioms FC.C06.optimal'
@@ -8,3 +10,26 @@ import FlatModel.Props.C06Opt
 #print axioms FC.C06.code_lt
 #print axioms FC.C06.single_symbol_one_bit
 #print axioms FC.C06.lookup_some_iff
+#print axioms FC.C06.raw_mode
+#print axioms FC.C06.raw_frame
+#print axioms FC.C06.raw_mode_all
+#print axioms FC.C06.clear_raw
+#print axioms FC.C06.bits_eq_sum
+#print axioms FC.C06.refuses_unknown
+#print axioms FC.C06.accepts_known
+#print axioms FC.C06.index_of_denotes
+#print axioms FC.C06.push_coded
+#print axioms FC.C06.roundtrip_coded
+#print axioms FC.C06.frame_coded
+#print axioms FC.C06.roundtrip_coded_all
+#print axioms FC.C06.roundtrip_after_merge
+#print axioms FC.C06.createFrom_ok
+#print axioms FC.Huff.push_appends
+#print axioms FC.Huff.frame_bits
+#print axioms FC.Huff.decode_spec
+#print axioms FC.Huff.chunks_spec
+#print axioms FC.Huff.createFrom_tableOK
+#print axioms FC.Huff.walk_sound
+#print axioms FC.C06.createFrom_good
+#print axioms FC.C06.roundtrip_merged
+#print axioms FC.Huff.canonBits_eq_bitsOfCode
